@@ -17,6 +17,14 @@ def mc_family(family, tier, wd):
     return r
 
 
+GRACEFUL_REGRESSIONS = [
+    # D24b: the batch persisted by the shutdown fills its segment (segment of 5 messages, 15 messages)
+    ('D24b-last-batch-fills-segment', dict(save_threshold=2, segment_bytes=305, cache='off', confirmation='no_wait', fsync=False),
+     [dict(op='append', k=1), dict(op='append', k=3), dict(op='append', k=3), dict(op='append', k=3), dict(op='append', k=1),
+      dict(op='flush'), dict(op='append', k=3), dict(op='flush'), dict(op='append', k=1)]),
+]
+
+
 def workload(rnd, n):
     steps = []
     sent = 0
@@ -58,6 +66,10 @@ def build_scenarios(families, tier, wd, seed):
                         scenarios.append(dict(id=f'graceful-{n}', family='graceful', seed=rnd.randrange(1 << 30), graceful_only=True,
                                               cfg=dict(save_threshold=thr, segment_bytes=seg, cache='off', confirmation=conf, fsync=fsync),
                                               steps=workload(rnd, rnd.choice([3, 6, 9]) if tier == 'quick' else 16)))
+        # regression workloads (findings pinned in the quick tier)
+        for name, cfg, steps in GRACEFUL_REGRESSIONS:
+            n += 1
+            scenarios.append(dict(id=f'graceful-regress-{name}', family='graceful', seed=7, graceful_only=True, cfg=cfg, steps=steps))
         return scenarios, {'graceful': dict(workloads=len(scenarios))}
     return scenarios, {'crash': dict(workloads=len(scenarios))}
 
